@@ -63,7 +63,30 @@ def gen_case(rng, cid):
             flds.append(field(True, 'f%d' % k, t))
     ds.append(type_def(True, 'User', [a_ident('packed')], flds))
     mods[obs][2] = uses
-    ents = [modent(path(*pp), module(uses=uu, defs=dd)) for (pp, dd, uu) in mods]
+    # the other lookup sites (all behind pointers, so that the layout of `User` is not involved): parameters and return types of
+    # impl functions and of virtual functions, extern values; and a vftable block of a type whose first base lives in ANOTHER
+    # module that defines the same names (the block's names are looked up in the deriving module's scope, not the base's)
+    bound = [nme for nme in NAMES if spec_binding(dd, p, ulist, nme) is not None]
+    xvals, impls, extra_mods = [], [], []
+    if bound and rng.random() < 0.7:
+        pick = lambda: ty_cptr(ty_id(rng.choice(bound))) if rng.random() < 0.5 else ty_mptr(ty_id(rng.choice(bound)))
+        ds.append(type_def(True, 'Sites', [], [vftable([], [fn(True, 'v0', [], [SELF, arg('a', pick()), arg('b', pick())], pick() if rng.random() < 0.5 else None)])]))
+        impls.append(impl('Sites', [], [fn(True, 'm0', [a_int('address', 0x10001000)], [MUTSELF, arg('a', pick())], pick())]))
+        xvals.append(xval(True, 'g_site', pick(), [a_int('address', 0x10002000)]))
+        if rng.random() < 0.6:
+            # base in another module which defines clashing names as well
+            bp = ['zbase%d' % rng.randint(0, 9)]
+            bdefs = [type_def(True, 'Base', [], [vftable([], [fn(True, 'f', [], [SELF], None)])])]
+            for nme in ('A', 'B', 'C'):
+                if rng.random() < 0.7:
+                    size[0] += 1
+                    bdefs.append(type_def(True, nme, [a_ident('packed')], [field(True, 'x', ty_arr(ty_id('u8'), size[0]))]))
+            extra_mods.append(modent(path(*bp), module(defs=bdefs)))
+            uses.append(path(*(bp + ['Base'])))
+            ds.append(type_def(True, 'Derived', [], [vftable([], [fn(True, 'f', [], [SELF], None),
+                                                                  fn(True, 'g', [], [SELF, arg('a', pick()), arg('b', pick())], None)]),
+                                                      field(True, 'base', ty_id('Base'), [a_ident('base')])]))
+    ents = [modent(path(*pp), module(uses=uu, defs=dd_, xvals=(xvals if pp == p else ()), impls=(impls if pp == p else ()))) for (pp, dd_, uu) in mods] + extra_mods
     rng.shuffle(ents)
     return case(cid, rng.choice([4, 8]), ents, extras=[[S('observe'), path(*p)]])
 
@@ -144,6 +167,48 @@ def judge(c, impl, model):
             own_is_type = len(own) >= 1 and own[-1] in defs.get(tuple(own[:-1]), {})
             fs.append(Finding('O', 'C11/wrong-binding' + ('/module-path-is-type-path' if own_is_type else ''), cid, 'User.%s: `%s` should denote %s, emitted %s' % (fname, base_name(t), want, flds.get(fname))))
             break
+    # the other lookup sites of the observed module
+    def want_ty(t):
+        b = spec_binding(defs, own, uses, base_name(t))
+        if b is None: return None
+        w = b[0] if len(b) == 1 else 'crate::' + '::'.join(b)
+        if w == 'void': w = '::std::ffi::c_void'
+        return ('*const ' if tag(t) == 'cptr' else '*mut ') + w
+    items_own = file_items(files, own) or []
+    nsites = 0
+    def check_fn(tname, f, where_):
+        nonlocal nsites
+        im = find_item(items_own, 'impl', tname)
+        mt = [x for x in impl_methods(im) if method_name(x) == fn_name(f)] if im is not None else []
+        if len(mt) != 1: return
+        params = [p_ for p_ in find(mt[0], 'params')[1:] if not isinstance(p_, Sym)]
+        decl = [a for a in fn_args(f) if not isinstance(a, Sym)]
+        for p_, a in zip(params, decl):
+            nsites += 1
+            if want_ty(a[2]) is not None and p_[2] != want_ty(a[2]):
+                fs.append(Finding('O', 'C11/wrong-binding/%s' % where_, cid, '%s::%s parameter %s: `%s` should denote %s, emitted %s' % (tname, fn_name(f), a[1], base_name(a[2]), want_ty(a[2]), p_[2])))
+        if fn_ret(f) is not None and want_ty(fn_ret(f)) is not None:
+            nsites += 1
+            if opt(mt[0][5]) != want_ty(fn_ret(f)):
+                fs.append(Finding('O', 'C11/wrong-binding/%s' % where_, cid, '%s::%s return type: should be %s, emitted %s' % (tname, fn_name(f), want_ty(fn_ret(f)), opt(mt[0][5]))))
+    own_is_type = len(own) >= 1 and own[-1] in defs.get(tuple(own[:-1]), {})
+    if not own_is_type and not any(f.kind == 'O' for f in fs):
+        for d in m_defs(m):
+            if def_is_type(d) and def_name(d) in ('Sites', 'Derived'):
+                for stt in type_stmts(d):
+                    if tag(stt) == 'vftable':
+                        for f in stt[2:]:
+                            check_fn(def_name(d), f, 'vftable-function' if def_name(d) == 'Sites' else 'vftable-function-of-derived-type')
+        for im_ in m_impls(m):
+            for f in im_[3:]:
+                check_fn(im_[1], f, 'impl-function')
+        for xv in m_xvals(m):
+            acc = [it for it in items_own if tag(it) == 'xaccessor' and it[2] == 'get_' + xv[2]]
+            if acc and want_ty(xv[3]) is not None:
+                nsites += 1
+                if acc[0][3] != want_ty(xv[3]):
+                    fs.append(Finding('O', 'C11/wrong-binding/extern-value', cid, '%s: should be %s, emitted %s' % (xv[2], want_ty(xv[3]), acc[0][3])))
+    count(info, 'other-sites-checked:%s' % ('0' if not nsites else '1-3' if nsites < 4 else '4+'))
     # the size used for layout is the selected definition's
     if tag(impl.get('o2')) == 'resolved' and not any(f.reason.endswith('module-path-is-type-path') for f in fs):
         it = o2_item(impl['o2'], own + ['User'])
